@@ -563,25 +563,35 @@ theorem modSwitchScaleNext_enc : type_of% @HC.c02p_step_ms := @HC.c02p_step_ms
 
 /-- HOM (BGV, levelled).  For every chain of constructor-built levels (`c02p_ChainOK`: bundles of every level, consecutive levels share
     moduli / tables / plain modulus), every secret with `‖s‖₁ ≤ S`, EVERY program over negate / add / sub / multiply / multiply_plain /
-    mod_switch_to_next (operands of different levels refused, switching below the last level refused), inputs as in HOM at their levels:
+    mod_switch_to_next / relinearize (operands of different levels refused, switching below the last level refused, relinearisation of sizes
+    above 3 outside the program class; if the program relinearises: `rk` is a key for s² satisfying the KEY EQUATION with errors `t·(…)`,
+    `‖e_i‖∞ ≤ Be`, at a well-formed key level whose first moduli / tables are those of every level: `c02p_KeyLevelOf`, `c02p_RelinOK`),
+    inputs as in HOM at their levels:
     if the model returns `(lv, r)` and the bookkeeping bound `V` satisfies `2·V < Q_lv`, then `bgvDecrypt` at level `lv` returns the shadow
     value modulo t. -/
 theorem hom_program_bgv_levelled {chain : Nat → Level} {top : Nat} (hch : c02p_ChainOK chain top) {sk : Array Int}
     (hsk : sk.size = (chain top).n) {S : Nat} (hS : ∑ k ∈ range (chain top).n, (c02p_sk sk k).natAbs ≤ S)
+    (kl : KeyLevel) (rk : KSKey) (e : Nat → Nat → Int) (G : Nat → Int) (A Be : Nat)
     (cts : Nat → Nat × Ct) (pls : Nat → Nat × RnsPoly) (M PL : Nat → Nat → Int) (inB : Nat → Nat × Nat × Nat × Nat)
     (plB : Nat → Nat × Nat) (prog : LProg) {lv : Nat} {r : Ct}
+    (hrk : prog.usesRelin = true → ∀ c, c ≤ top → c02p_KeyLevelOf kl (chain c) ∧ c02p_RelinOK kl (chain c).size rk (c02p_sk sk) e G A Be)
     (hin : ∀ i ∈ prog.ctInputs, (cts i).1 ≤ top ∧ c02p_Enc (chain (cts i).1) sk (cts i).2 (M i) (inB i).2.2.2 ∧
         inB i = ((cts i).1, (cts i).2.cf, (cts i).2.polys.size, (inB i).2.2.2))
     (hpl : ∀ k ∈ prog.plInputs, RnsCanon (chain (pls k).1) (pls k).2 ∧ c02p_PlainLift (chain (pls k).1) (pls k).2 (PL k) ∧
         (∀ j, j < (chain top).n → (PL k j).natAbs ≤ (plB k).2) ∧ (plB k).1 = (pls k).1)
-    (hev : prog.eval chain cts pls = .ok (lv, r)) {st : Nat × Nat × Nat} {V : Nat}
-    (hub : prog.noiseUB chain S inB plB = some (st.1, st.2.1, st.2.2, V)) (hV : 2 * V < (chain lv).tool.baseQ.prod) :
+    (hev : prog.eval chain kl rk cts pls = .ok (lv, r)) {st : Nat × Nat × Nat} {V : Nat}
+    (hub : prog.noiseUB chain kl A Be S inB plB = some (st.1, st.2.1, st.2.2, V)) (hV : 2 * V < (chain lv).tool.baseQ.prod) :
     bgvDecrypt (chain lv) sk r = .ok (Spec.trim (Array.ofFn (n := (chain lv).n) fun j =>
       Spec.imod (prog.shadow (chain top).n M PL j.val) (chain lv).t.value)) :=
-  HC.hom_program_bgv_levelled hch hsk hS cts pls M PL inB plB prog hin hpl hev hub hV
+  HC.hom_program_bgv_levelled hch hsk hS kl rk e G A Be cts pls M PL inB plB prog hrk hin hpl hev hub hV
 
 /-- the induction behind it (level stays within the chain, bookkeeping = (level, factor, size, bound) of the result) -/
 theorem hom_program_bgv_levelled_inv : type_of% @HC.c02p_lprog_inv := @HC.c02p_lprog_inv
+
+/-- BGV relinearisation (size 3 → 2) on exact phases: phase(r) ≡ phase(a) + ν (mod Q), t ∣ ν, P·‖ν‖∞ ≤ dsz·A·N·Be + P·t·(1 + ‖s‖₁) -/
+theorem relinearize_exact_phase : type_of% @HC.c02p_relin_ph := @HC.c02p_relin_ph
+/-- … as a step of the induction: same message and factor, norm `≤ V + ⌊(dsz·A·N·Be + P·t·(1 + S)) / P⌋` -/
+theorem relinearize_enc : type_of% @HC.c02p_step_relin := @HC.c02p_step_relin
 
 /-- NON-VACUITY on a two-level chain built by `Drv.Sch.mkLevel` (q = {97, 113, 193} → {97, 113}, t = 17): program
     mod_switch(x0·x1) − mod_switch(x0); result at the lower level with correction factor 3; decrypts to (0, 3, 14) -/
